@@ -27,3 +27,23 @@ def run(check):
     from ..rules_support import rule_future_flags, rule_func_from_sig
     check.run_rule('C20.R5', lambda c: rule_func_from_sig(c, 'C20.R5'))
     check.run_rule('C20.R4', lambda c: rule_future_flags(c, 'C20.R4'))
+
+    def r7(c):
+        # the modifiers-based spellings: func_code writes `@modifiers.annotate(...)` above `@modifiers.kwoargs/posoargs(...)`, so
+        # the functions made by f()/s() are exactly as good as the translator's preparation table, its re-preparation by annotate
+        # (idempotent: every container _prepare fills is created inside it) and annotate's protocol (shared with C12.R1 / C18.R3)
+        import ast
+        fc = c.repo.func('support:func_code')
+        consts = [n.value for n in ast.walk(fc.node) if isinstance(n, ast.Constant) and isinstance(n.value, str)]
+        emits = [w for w in ('modifiers.annotate', 'modifiers.kwoargs', 'modifiers.posoargs') if any(w in s for s in consts)]
+        if 'modifiers.annotate' not in emits or len(emits) < 2:
+            c.holds('C20.R7', '-', 'func_code does not stack annotate over a keyword/positional modifier (%s)' % ', '.join(emits), key='func_code|stack',
+                    nontrivial=False)
+            return
+        c.holds('C20.R7', '%s %s' % (fc.loc(fc.node), fc.key), 'func_code stacks %s' % ' over '.join(emits), key='func_code|stack')
+        from ..rules_modifiers import rule_prepare_table, rule_annotate_after_modifier, rule_call_table
+        rule_prepare_table(c, 'C20.R7', 'C20.R7')
+        rule_annotate_after_modifier(c, 'C20.R7')
+        # ... and what f()'s function returns for a call goes through the translator's call translation (shared with C12.R2)
+        rule_call_table(c, 'C20.R7')
+    check.run_rule('C20.R7', r7)
